@@ -11,7 +11,7 @@ from ..norm import Normalizer, Poly, NormError
 from .c05 import (entails, alts_bool, _neg, _show, pseudo_asserting, pseudo_nodes, canon, canon_chain,
                   enclosing_loops, _handler_types, _catches_exceptions)
 from ..model import FuncInfo
-from ._kit_c07 import (sem_equiv, sem_implies, forms_of, rename_atoms, write_values, returned_elements, reach_dnf, path_conditions, Undecided,
+from ._kit_c07 import (sem_equiv, sem_implies, sem_satisfiable, atoms_of, project_away, forms_of, rename_atoms, write_values, returned_elements, reach_dnf, path_conditions, Undecided, ConsistentWalk, flag_locals, constant_env,
                        PathExpander as Expander)
 
 R = Rules(
@@ -28,10 +28,17 @@ R = Rules(
         "(equivalence decided by evaluating both sides in every cell that the comparisons' thresholds cut out of "
         "the integer line of each linear form, and for every value of the remaining boolean atoms), and those values must be what the "
         "RFC says (V2 the new notification's Observe value, T2 its arrival time, V1/T1 those of the last "
-        "notification accepted, updated exactly under the freshness condition).  Path rules: nothing is "
-        "delivered and no event is consumed after observation.error(); last/Observe-less/failed events reach "
-        "an error() call; TokenManager.process_response forgets the token exactly when the request had no "
-        "Observe:0 or the response has no Observe; ClientObservation.error() refuses a cancelled observation and "
+        "notification accepted, updated exactly under the freshness condition).  The endings are decided over the "
+        "literal-consistent walks of one round of the runner (branch outcomes that contradict each other, the "
+        "property of the event under discussion or the constant a flag local was just given are not taken, so the "
+        "grouping of the tests is immaterial): nothing is delivered and no event is consumed after "
+        "observation.error(); every walk of a last / Observe-less / failed event enters an error() call whose "
+        "argument is, on that walk, NotObservable / ObservationCancelled / the event's exception.  "
+        "TokenManager.process_response forgets the token exactly when the request had no "
+        "Observe:0 or the response has no Observe, compared semantically in the cells where a request was found "
+        "(the reachability condition of the hand-over with the Observe options projected away -- a disjunction "
+        "when the key is chosen among candidates), and the entry removed is the one matched; "
+        "ClientObservation.error() refuses a cancelled observation and "
         "ends in cancel(), which nulls both callback lists; BlockwiseRequest._run_observation forwards every "
         "completed notification, signals a normal end once, forwards exceptions and cancels the lower "
         "observation in its finally block.  Not decided: what the lossy async iterator delivers under "
@@ -46,6 +53,12 @@ OBS = "self.observation"
 
 class _Roles:
     pass
+
+
+def _normalizer(prog, fi):
+    """normal forms in which the named numeric constants the function reads (module level, class level) are their values"""
+    env, chain_env = constant_env(prog, fi)
+    return Normalizer(env=env, chain_env=chain_env)
 
 
 def _assign_target(cfg, node):
@@ -74,11 +87,15 @@ def _event_fields(ctx):
 class _EventView(ast.NodeTransformer):
     """`m, e, l = (yield ...)` / `m, e, l = event`  ->  one event variable; reads of m / e / l (and of
     event[i]) become event.message / event.exception / event.is_last.  Exact, because the event is an
-    immutable namedtuple and the unpacked locals are bound nowhere else."""
+    immutable namedtuple and the unpacked locals are bound nowhere else.  When the same locals receive several
+    events (`message, exception, is_last = yield ...` both before and inside the loop) every read is attributed to
+    the one unpacking whose binding reaches it (reaching definitions on the CFG); a read that two of them reach is
+    refused."""
 
-    def __init__(self, fields, fnode, fresh):
-        self.fields, self.fnode, self.fresh = fields, fnode, fresh
-        self.view = {}  # local -> (event name, field)
+    def __init__(self, fields, fnode, fresh, fi=None):
+        self.fields, self.fnode, self.fresh, self.fi = fields, fnode, fresh, fi
+        self.view = {}  # local bound by one unpacking -> (event name, field)
+        self.use = {}  # id(Name node that reads a local bound by several unpackings) -> (event name, field)
         self.events = set()
         self.bad = None
 
@@ -88,11 +105,16 @@ class _EventView(ast.NodeTransformer):
         return None
 
     def collect(self):
+        self.drop = set()
+        unpackings = []  # (statement, event name, local names)
+        retarget = []
+        plain = {}  # name that receives whole events -> [(statement, target)]
+        whole = {}  # such a name when several yields assign it -> [(statement, fresh event name)]
         for st in walk_no_nested(self.fnode):
             if isinstance(st, ast.Assign) and len(st.targets) == 1 and isinstance(st.value, ast.Yield):
                 t = st.targets[0]
                 if isinstance(t, ast.Name):
-                    self.events.add(t.id)
+                    plain.setdefault(t.id, []).append((st, t))
                     continue
                 ns = self._names(t)
                 if ns is None:
@@ -100,23 +122,63 @@ class _EventView(ast.NodeTransformer):
                     return
                 ev = self.fresh()
                 self.events.add(ev)
-                for n, f in zip(ns, self.fields):
-                    self._bind(n, ev, f)
-                st.targets = [ast.copy_location(ast.Name(id=ev, ctx=ast.Store()), t)]
-        self.drop = set()
+                unpackings.append((st, ev, ns))
+                retarget.append((st, ev, t))
+        for name, sts in plain.items():
+            if len(sts) == 1:
+                self.events.add(name)
+            elif len(writes_to_name(self.fnode, name)) == len(sts):
+                # one name for the events of several yields (`event = yield ...` before and inside the loop): one
+                # variable per yield, each read attributed below to the binding that reaches it
+                whole[name] = []
+                for st, t in sts:
+                    ev = self.fresh()
+                    self.events.add(ev)
+                    whole[name].append((st, ev))
+                    retarget.append((st, ev, t))
+            else:
+                self.events.add(name)  # rebound otherwise: refused by the caller
         for st in walk_no_nested(self.fnode):
             if isinstance(st, ast.Assign) and len(st.targets) == 1 and isinstance(st.value, ast.Name) and st.value.id in self.events \
                     and len(writes_to_name(self.fnode, st.value.id)) == 1:
                 ns = self._names(st.targets[0])
                 if ns is not None:
-                    for n, f in zip(ns, self.fields):
-                        self._bind(n, st.value.id, f)
+                    unpackings.append((st, st.value.id, ns))
                     self.drop.add(id(st))
-
-    def _bind(self, n, ev, f):
-        if n in self.view or len(writes_to_name(self.fnode, n)) != 1:
-            self.bad = "the local %s unpacked from an event is bound more than once" % n
-        self.view[n] = (ev, f)
+        binds = {}
+        for st, ev, ns in unpackings:
+            if len(set(ns)) != len(ns):
+                self.bad = "an event is unpacked into %s" % ", ".join(ns)
+                return
+            for n, f in zip(ns, self.fields):
+                binds.setdefault(n, []).append((st, ev, f))
+        for n, bs in binds.items():
+            if len(writes_to_name(self.fnode, n)) != len(bs):
+                self.bad = "the local %s unpacked from an event is also bound otherwise" % n
+                return
+            if len(bs) == 1:
+                self.view[n] = bs[0][1:]
+        multi = {n for n, bs in binds.items() if len(bs) > 1} | set(whole)
+        for name, lst in whole.items():
+            binds[name] = [(st, ev, None) for st, ev in lst]
+        if multi:
+            if self.fi is None:
+                self.bad = "the local %s unpacked from an event is bound more than once" % sorted(multi)[0]
+                return
+            from .c05 import Expander as _ReachingDefs
+            tmp = FuncInfo(self.fi.qn, self.fnode, self.fi.module, self.fi.cls, self.fi.parent)
+            rd = _ReachingDefs(tmp)
+            for u in walk_no_nested(self.fnode):
+                if isinstance(u, ast.Name) and isinstance(u.ctx, ast.Load) and u.id in multi:
+                    defs, entry = rd.reaching(u.id, rd.cfg.loc1(u))
+                    sts = {id(st) for _wn, st, _v, _b in defs}
+                    hit = [b for b in binds[u.id] if id(b[0]) in sts]
+                    if entry or len(sts) != 1 or len(hit) != 1:
+                        self.bad = "a read of %s (unpacked from several events) is not reached by exactly one of the unpackings" % u.id
+                        return
+                    self.use[id(u)] = hit[0][1:]
+        for st, ev, t in retarget:
+            st.targets = [ast.copy_location(ast.Name(id=ev, ctx=ast.Store()), t)]
 
     def visit_Assign(self, st):
         if id(st) in self.drop:
@@ -124,8 +186,10 @@ class _EventView(ast.NodeTransformer):
         return self.generic_visit(st)
 
     def visit_Name(self, n):
-        if isinstance(n.ctx, ast.Load) and n.id in self.view:
-            ev, f = self.view[n.id]
+        if isinstance(n.ctx, ast.Load) and (id(n) in self.use or n.id in self.view):
+            ev, f = self.use[id(n)] if id(n) in self.use else self.view[n.id]
+            if f is None:  # the event itself under its per-yield name
+                return ast.copy_location(ast.Name(id=ev, ctx=ast.Load()), n)
             return ast.copy_location(ast.Attribute(value=ast.Name(id=ev, ctx=ast.Load()), attr=f, ctx=ast.Load()), n)
         return n
 
@@ -137,6 +201,84 @@ class _EventView(ast.NodeTransformer):
         return n
 
 
+class _Rename(ast.NodeTransformer):
+    def __init__(self, mapping):
+        self.mapping = mapping
+
+    def visit_Name(self, n):
+        if n.id in self.mapping:
+            return ast.copy_location(ast.Name(id=self.mapping[n.id], ctx=n.ctx), n)
+        return n
+
+
+def _tail_statements(body):
+    """(block, index) of the statements after which the function is left whatever they do: the last statement of
+    the body and, through `if` statements in that position, of their arms"""
+    out = []
+    if not body:
+        return out
+    last = body[-1]
+    out.append((body, len(body) - 1))
+    if isinstance(last, ast.If):
+        out += _tail_statements(last.body) + _tail_statements(last.orelse)
+    return out
+
+
+def _splice_subgenerators(ctx, fi, fn, depth=0):
+    """`yield from self._rest(a, b)` in tail position of the runner, `_rest` being a generator method that is not
+    overridden: the same generator as the runner continued with the body of `_rest` (its parameters bound to the
+    arguments, its locals renamed apart).  In tail position the sub-generator's `return` ends the runner as well, and
+    every event sent to the runner is received by the sub-generator's yields (PEP 380), so the splice is exact.
+    Anything else (a `yield from` followed by more code, a delegate that cannot be resolved) is left as it is and
+    refused later for want of the in-loop yield."""
+    if depth > 3:
+        return fn
+    for block, i in _tail_statements(fn.body):
+        st = block[i]
+        v = st.value if isinstance(st, (ast.Expr, ast.Return)) else None
+        if not isinstance(v, ast.YieldFrom) or not isinstance(v.value, ast.Call):
+            continue
+        call = v.value
+        g = _callee(ctx.prog, fi, call)
+        if g is None or g.is_async or not any(isinstance(n, (ast.Yield, ast.YieldFrom)) for n in walk_no_nested(g.node)):
+            continue
+        if g.cls is None or any(g.name in ctx.prog.classes[q].methods for q in ctx.prog.subclasses(g.cls.qn) if q != g.cls.qn and q in ctx.prog.classes):
+            continue  # dynamically dispatched
+        if any(isinstance(a_, ast.Starred) for a_ in call.args) or any(k.arg is None for k in call.keywords):
+            continue
+        ga = g.node.args
+        if ga.vararg or ga.kwarg or ga.kwonlyargs:
+            continue
+        ps = [x.arg for x in ga.posonlyargs + ga.args]
+        if not (ps and ps[0] == "self" and isinstance(call.func, ast.Attribute) and chain(call.func.value) == "self"):
+            continue
+        ps = ps[1:]
+        bound = dict(zip(ps, call.args))
+        for k in call.keywords:
+            bound[k.arg] = k.value
+        defaults = dict(zip(reversed(ps), reversed(ga.defaults)))
+        if len(call.args) > len(ps) or any(p_ not in bound and p_ not in defaults for p_ in ps) or set(bound) - set(ps):
+            continue
+        body = copy.deepcopy(g.node.body)
+        holder = ast.Module(body=body, type_ignores=[])
+        local = {n.id for n in ast.walk(holder) if isinstance(n, ast.Name) and isinstance(n.ctx, (ast.Store, ast.Del))} | set(ps)
+        taken = {n.id for n in ast.walk(fn) if isinstance(n, ast.Name)}
+        mapping = {}
+        for name in sorted(local):
+            new = name
+            while new in taken:
+                new += "_"
+            taken.add(new)
+            if new != name:
+                mapping[name] = new
+        holder = _Rename(mapping).visit(holder)
+        binds = [ast.copy_location(ast.Assign(targets=[ast.Name(id=mapping.get(p_, p_), ctx=ast.Store())], value=copy.deepcopy(bound.get(p_, defaults.get(p_))), lineno=st.lineno), st) for p_ in ps]
+        block[i:i + 1] = binds + holder.body
+        ast.fix_missing_locations(fn)
+        return _splice_subgenerators(ctx, fi, fn, depth + 1)
+    return fn
+
+
 def _canonical_run(ctx):
     """Request._run with every event seen through one variable per yield."""
     fi = ctx.prog.func(RUN)
@@ -145,6 +287,9 @@ def _canonical_run(ctx):
         return cache["fi"]
     fields = _event_fields(ctx)
     fn = copy.deepcopy(fi.node)
+    if any(isinstance(n, ast.YieldFrom) for n in walk_no_nested(fn)):
+        fn = _splice_subgenerators(ctx, fi, fn)
+        fi = FuncInfo(fi.qn, fn, fi.module, fi.cls, fi.parent)
     taken = {n.id for n in ast.walk(fn) if isinstance(n, ast.Name)}
     counter = [0]
 
@@ -156,10 +301,10 @@ def _canonical_run(ctx):
                 taken.add(nm)
                 return nm
 
-    ev = _EventView(fields, fn, fresh)
+    ev = _EventView(fields, fn, fresh, fi)
     ev.collect()
     ctx.need(ev.bad is None, "Request._run: %s" % ev.bad)
-    if ev.view or ev.drop:
+    if ev.view or ev.use or ev.drop:
         fn = ev.visit(fn)
         ast.fix_missing_locations(fn)
         fi = FuncInfo(fi.qn, fn, fi.module, fi.cls, fi.parent)
@@ -206,19 +351,45 @@ def _roles_uncached(ctx):
     r.loop = enclosing_loops(cfg, r.ne_stmt, fi.node)[-1]
     r.ne_nid = cfg.loc1(r.ne_stmt)
     r.X = Expander(fi)
-    r.N = Normalizer()
+    r.N = _normalizer(ctx.prog, fi)
     r.cbs = _obs_calls(r, "callback")
     r.errs = _obs_calls(r, "error")
     r.V2 = "%s.message.opt.observe" % r.NE
     r.noobs = ("is", r.V2, "None")
     r.hasobs = ("isnot", r.V2, "None")
     r.allowed = {("is", "%s.exception" % r.NE, "None"), ("nottruth", OBS + ".cancelled")}
-    loop_alts = reach_dnf(r.X, r.N, fi, r.ne_stmt)
+    r.objects = _object_or_none(ctx, r)
+    loop_alts = [frozenset(_canon_lit(r, l) for l in a_) for a_ in reach_dnf(r.X, r.N, fi, r.ne_stmt)]
     r.ctx_lits = frozenset.intersection(*loop_alts) if loop_alts else frozenset()
     # what may be assumed when a condition inside the loop is judged: what holds for the whole loop, and
     # 'no transport error, not cancelled' (C07.b demands both at every delivery)
-    r.assume = frozenset(rename_atoms(l, _untag) for l in r.ctx_lits) | frozenset(r.allowed)
+    r.assume = frozenset(r.ctx_lits) | frozenset(r.allowed)
     return r
+
+
+def _object_or_none(ctx, r):
+    """Quantities that are either None or an object that is true in a boolean context, so that `if x:` and
+    `if x is not None:` are the same test: the message / exception of an event (exceptions are true unless a class
+    goes out of its way; Message defines neither __bool__ nor __len__ -- checked) and the request's observation
+    (same check)."""
+    out = set()
+    for ev in (r.FE, r.NE):
+        out.add("%s.exception" % ev)
+    plain = lambda cls: not ({"__bool__", "__len__"} & set(ctx.prog.cls(cls).methods))
+    if plain("message.Message"):
+        out |= {"%s.message" % ev for ev in (r.FE, r.NE)}
+    if plain("protocol.ClientObservation"):
+        out.add(OBS)
+    return out
+
+
+def _canon_lit(r, l):
+    """one spelling per fact: truthiness of an object-or-None quantity is its `is not None`; values as of an
+    earlier definition in the same round (`v1@flag`) are the quantity itself"""
+    l = rename_atoms(l, _untag)
+    if l[0] in ("truth", "nottruth") and l[1] in r.objects:
+        return ("isnot" if l[0] == "truth" else "is", l[1], "None")
+    return l
 
 
 def _in_loop(r, st):
@@ -228,7 +399,7 @@ def _in_loop(r, st):
 def _alts(r, node):
     """Alternatives (conjunctions of normal-form literals) under which `node` executes; a value a local
     had when a flag was computed (`v1@flag`) is the same quantity as the local (`v1`)."""
-    return [frozenset(rename_atoms(l, _untag) for l in a) for a in reach_dnf(r.X, r.N, r.fi, node, r.ne_nid)]
+    return [frozenset(_canon_lit(r, l) for l in a) for a in reach_dnf(r.X, r.N, r.fi, node, r.ne_nid)]
 
 
 def _holds(r, node, lit):
@@ -425,65 +596,157 @@ def _arg_class(prog, fi, call, X=None):
     return None
 
 
+def _error_ctor(prog, fi, call):
+    """is `call` the construction of an aiocoap exception (a fresh object; nothing else happens)?"""
+    c = chain(call.func)
+    q = prog.resolve_in_module(fi.module, c) if c else None
+    return bool(q) and q in prog.classes and prog.is_subclass(q, "BaseException")
+
+
+def _stable_keep(r, flags=()):
+    """The literals that stay true for a whole round of the runner (from the receipt of an event to the receipt
+    of the next one or the runner's end): those about the fields of the received events (immutable named tuples;
+    the Observe option of a received message is not written by the runner), about whether an observation was
+    requested, and about its `cancelled` flag (the obligations are about rounds in which the observation is not
+    cancelled when the event arrives; they end at the error() call that cancels it).  Literals over values as of
+    an earlier definition (`x@flag`) and over anything else are free choices."""
+    consts = {"None", "True", "False"}
+    roots = {r.FE, r.NE}
+
+    def keep(l):
+        if any("@" in a_ for a_ in atoms_of(l)):
+            return None
+        l = _canon_lit(r, l)
+        for a_ in atoms_of(l):
+            if a_ in consts or a_.lstrip("-").isdigit():
+                continue
+            if a_ in (OBS, OBS + ".cancelled") or a_ in flags:
+                continue
+            parts = a_.split(".")
+            if parts[0] in roots and len(parts) > 1 and all(x.isidentifier() for x in parts):
+                continue
+            return None
+        return l
+
+    return keep
+
+
 @R.clause("C07.c", "after observation.error() nothing is delivered and no event is consumed; first response last -> NotObservable; transport failure -> its exception; last / Observe-less notification -> ObservationCancelled")
 def c(ctx):
+    """Decided over the literal-consistent walks of one round of the runner (_kit_c07.ConsistentWalk), not over
+    which `if` statements exist: 'an event with property L ends the observation with error(E)' means that every
+    walk from the receipt of the event on which L is not contradicted enters an error() site whose argument is E
+    on that walk, before the runner returns or waits for the next event.  The grouping of the tests (guard
+    clauses, one merged condition with an inner if/elif, nesting under `is_last`, flags, helpers, one error site
+    whose argument is chosen by a conditional expression) does not change the set of walks."""
+    from .c05 import pure_or_predicate
     r = _roles(ctx)
     fi, cfg, prog = r.fi, r.cfg, ctx.prog
     err_n = {cfg.loc1(e): e for e in r.errs}
     cb_n = {cfg.loc1(x) for x in r.cbs}
-    yield_n = {cfg.loc1(r.ne_stmt), cfg.loc1(r.fe_stmt)}
+    fe_n, ne_n = cfg.loc1(r.fe_stmt), r.ne_nid
+    yield_n = {ne_n, fe_n}
+    # values may be looked through the construction of an error object (`e = error.X(); obs.error(e)`,
+    # `obs.error(error.X() if first else error.Y())`)
+    X = Expander(fi, pure=lambda call: pure_or_predicate(call) or _error_ctor(prog, fi, call))
+
+    def decide(t):
+        """`<freshly constructed exception> is None` is false, the object itself is true"""
+        pol = True
+        while isinstance(t, ast.UnaryOp) and isinstance(t.op, ast.Not):
+            t, pol = t.operand, not pol
+        if isinstance(t, ast.Call) and _error_ctor(prog, fi, t):
+            return pol
+        if isinstance(t, ast.Compare) and len(t.ops) == 1 and isinstance(t.ops[0], (ast.Is, ast.IsNot, ast.Eq, ast.NotEq)):
+            a_, b_ = t.left, t.comparators[0]
+            if isinstance(a_, ast.Constant) and a_.value is None:
+                a_, b_ = b_, a_
+            if isinstance(b_, ast.Constant) and b_.value is None and isinstance(a_, ast.Call) and _error_ctor(prog, fi, a_):
+                return pol == isinstance(t.ops[0], (ast.IsNot, ast.NotEq))
+        return None
+
+    W = ConsistentWalk(X, r.N, fi, _stable_keep(r, flag_locals(fi)), decide)
+    NOTOBS, CANCELLED, EXC = "aiocoap.error.NotObservable", "aiocoap.error.ObservationCancelled", "<the event's exception>"
+
+    def signals(nid, lits):
+        """what the error() site nid signals on a walk that knows `lits`: the set of classes / EXC / None (unknown)"""
+        e = err_n[nid]
+        out = set()
+        try:
+            alts = X.expand(e.args[0], nid)
+        except AnalysisError:
+            return {None}
+        for v, conds in alts:
+            if not any(W.add(lits, a_) is not None for a_ in W.alternatives([conds])):
+                continue
+            if chain(v) == "%s.exception" % r.NE:
+                out.add(EXC)
+            elif isinstance(v, ast.Call) and chain(v.func):
+                out.add(prog.resolve_in_module(fi.module, chain(v.func)))
+            else:
+                out.add(_arg_class(prog, fi, e))
+        return out
+
+    def show(lits, init):
+        return _show(frozenset(lits) - frozenset(init)) or "{}"
+
+    # 1. after error(): nothing is delivered, nothing more is signalled, no further event is awaited
+    bad_follow, bad_wait = {}, {}
+    for start in (fe_n, ne_n):
+        for end, lits, trail in W.run(start, (), stop=yield_n, watch=set(err_n) | cb_n):
+            errs_at = [i for i, n in enumerate(trail) if n in err_n]
+            if not errs_at:
+                continue
+            first = trail[errs_at[0]]
+            if len(trail) > errs_at[0] + 1:
+                bad_follow.setdefault(first, show(lits, ()))
+            if end in yield_n:
+                bad_wait.setdefault(first, show(lits, ()))
     for nid, e in err_n.items():
-        after = cfg.reach({nid}, skip_labels=("exc",))
-        ctx.ob("after observation.error() no callback and no second error() follows", not (after & (set(err_n) | cb_n)), fi, e)
-        ctx.ob("after observation.error() the runner ends without waiting for another event", not (after & yield_n) and cfg.exit in after, fi, e, construct="%s  [ends]" % stmt_text(e))
-    by_class = {}
-    for nid, e in err_n.items():
-        by_class.setdefault(_arg_class(prog, fi, e), set()).add(nid)
-    notobs = by_class.get("aiocoap.error.NotObservable", set())
-    cancelled = by_class.get("aiocoap.error.ObservationCancelled", set())
-    exc_sites = {nid for nid, e in err_n.items() if len(e.args) == 1 and canon_chain(r.X, e.args[0], nid) == "%s.exception" % r.NE}
+        ctx.ob("after observation.error() no callback and no second error() follows", nid not in bad_follow, fi, e,
+               detail="on the way %s" % bad_follow[nid] if nid in bad_follow else None)
+        ctx.ob("after observation.error() the runner ends without waiting for another event", nid not in bad_wait and cfg.exit in cfg.reach({nid}, skip_labels=("exc",)), fi, e,
+               detail="on the way %s" % bad_wait[nid] if nid in bad_wait else None, construct="%s  [ends]" % stmt_text(e))
 
-    def ends_in(lit, sites, what, floor_what, only=None):
-        """From every branch outcome asserting `lit` (not already behind an
-        error() call) all paths on which `lit` stays true reach one of `sites`
-        before the runner ends or waits for the next event."""
-        ps = pseudo_asserting(r.X, r.N, cfg, lambda a: lit in a)
-        contra = pseudo_asserting(r.X, r.N, cfg, lambda a: _neg(lit) in a)
-        ps = {p for p in ps if not any(cfg.dominates(en, p) for en in err_n) and (only is None or only(p))}
-        ctx.floor(floor_what, len(ps), 1)
-        for p in sorted(ps):
-            seen = cfg.reach({p}, avoid=set(sites) | contra, skip_labels=("exc",))
-            ok = bool(sites) and cfg.exit not in seen and not (seen & yield_n)
-            ctx.ob(what, ok, fi, cfg.nodes[p].ast, construct="%s  [%s]" % (stmt_text(cfg.nodes[p].ast), "T" if cfg.nodes[p].kind == "T" else "F"))
+    # 2. which events end the observation, and how
+    alive = ("nottruth", OBS + ".cancelled")
+    noexc, hasexc = ("is", "%s.exception" % r.NE, "None"), ("isnot", "%s.exception" % r.NE, "None")
 
-    # the other direction, over all ways round the loop (whatever their shape: fall-through, continue, flags)
-    for lit, what in ((("is", "%s.exception" % r.NE, "None"), "carried a message"), (("nottruth", "%s.is_last" % r.NE), "was not the last one"),
-                      (r.hasobs, "carried an Observe option")):
-        P = pseudo_asserting(r.X, r.N, cfg, lambda a_, lit=lit: lit in a_)
-        ok = bool(P) and r.ne_nid not in cfg.reach({r.ne_nid}, avoid=P, skip_labels=("exc",))
-        ctx.ob("the runner waits for a further event only after an event that %s" % what, ok, fi, r.ne_stmt, construct="%s  [next only if it %s]" % (stmt_text(r.ne_stmt), what))
-    # only the part of the function where an observation exists
-    hasobs = pseudo_asserting(r.X, r.N, cfg, lambda a: ("isnot", OBS, "None") in a)
-    ctx.floor("branches on 'an observation was requested'", len(hasobs), 1)
+    def ends_with(start, stmt, init, kind, what, tag):
+        walks = W.run(start, init, stop=set(err_n) | yield_n)
+        ctx.need(bool(walks), "Request._run: no way through the runner for an event with %s" % _show(frozenset(init)))
+        bad = None
+        for end, lits, _trail in sorted(walks, key=lambda w: (str(w[0]), sorted(map(str, w[1])))):
+            if end in err_n:
+                got = signals(end, lits)
+                if got == {kind}:
+                    continue
+                bad = "%s signals %s on the way %s" % (stmt_text(err_n[end]), ", ".join(sorted(str(g).split(".")[-1] for g in got)) or "nothing", show(lits, init))
+            else:
+                bad = "%s without error() on the way %s" % ({"exit": "returns", "raise": "raises"}.get(end, "waits for the next event"), show(lits, init))
+            break
+        ctx.ob(what, bad is None, fi, stmt, detail=bad, construct="%s  [%s]" % (stmt_text(stmt), tag))
 
-    def reach_obs(p):
-        return any(cfg.dominates(h, p) for h in hasobs)
-
-    ends_in(("truth", "%s.is_last" % r.FE), notobs, "a first response that is also the last one ends the observation with NotObservable", "branches on 'first event is last'", reach_obs)
-    noexc = pseudo_asserting(r.X, r.N, cfg, lambda a: ("is", "%s.exception" % r.NE, "None") in a)
-
-    def is_message(p):  # the event is known to carry a message, not an exception
-        return any(cfg.dominates(q, p) for q in noexc)
-
-    ends_in(("truth", "%s.is_last" % r.NE), cancelled, "the last message of the exchange ends the observation with ObservationCancelled", "branches on 'event is last'", is_message)
-    ends_in(r.noobs, cancelled, "a notification without Observe option ends the observation with ObservationCancelled", "branches on 'notification has no Observe option'", is_message)
-    ends_in(("isnot", "%s.exception" % r.NE, "None"), exc_sites, "a transport failure ends the observation with the failure's exception", "branches on 'event carries an exception'")
+    ends_with(fe_n, r.fe_stmt, {("isnot", OBS, "None"), ("truth", "%s.is_last" % r.FE)}, NOTOBS,
+              "a first response that is also the last one ends the observation with NotObservable", "last -> NotObservable")
+    ends_with(ne_n, r.ne_stmt, {alive, noexc, ("truth", "%s.is_last" % r.NE)}, CANCELLED,
+              "the last message of the exchange ends the observation with ObservationCancelled", "last -> ObservationCancelled")
+    ends_with(ne_n, r.ne_stmt, {alive, noexc, r.noobs}, CANCELLED,
+              "a notification without Observe option ends the observation with ObservationCancelled", "no Observe -> ObservationCancelled")
+    ends_with(ne_n, r.ne_stmt, {alive, hasexc}, EXC,
+              "a transport failure ends the observation with the failure's exception", "exception -> error(exception)")
+    # the other direction: a further event is awaited only after a message that was not the last one and carried an Observe option
+    for lit, what in ((noexc, "carried a message"), (("nottruth", "%s.is_last" % r.NE), "was not the last one"), (r.hasobs, "carried an Observe option")):
+        again = [w for w in W.run(ne_n, {_neg(lit)}, stop=yield_n) if w[0] in yield_n]
+        ctx.ob("the runner waits for a further event only after an event that %s" % what, not again, fi, r.ne_stmt,
+               detail="waits again on the way %s" % show(again[0][1], ()) if again else None, construct="%s  [next only if it %s]" % (stmt_text(r.ne_stmt), what))
     for cls in ("error.NotObservable", "error.ObservationCancelled"):
         ci = prog.cls(cls)
         ctx.ob("%s is an aiocoap Error" % cls, prog.is_subclass(ci.qn, "aiocoap.error.Error"), None, None, construct="class %s" % cls)
-    # hand-confirmed instance counts (checked last so that a missing site is first reported where it matters)
-    # (one site per kind of ending at least: NotObservable, the transport's exception, ObservationCancelled)
-    ctx.floor("observation.error sites in Request._run", len(r.errs), 3)
+    # instance counts (checked last so that a missing site is first reported where it matters).  One error() site is
+    # enough for the rule to be meaningful: which ending it signals is decided per walk above, so a single site whose
+    # argument is chosen earlier is as good as one site per ending.
+    ctx.floor("observation.error sites in Request._run", len(r.errs), 1)
     ctx.floor("observation.callback sites in Request._run", len(r.cbs), 1)
 
 
@@ -553,7 +816,7 @@ def d(ctx):
     ctx.need(len(p) == 1 and not writes_to_name(fi.node, p[0]), "process_response signature changed")
     resp = p[0]
     cfg = cfg_of(fi)
-    N = Normalizer()
+    N = _normalizer(ctx.prog, fi)
     # the matched request: the one object every add_response goes to; it must come out of outgoing_requests
     adds = [c for c in calls_in(fi.node) if isinstance(c.func, ast.Attribute) and c.func.attr == "add_response"]
     ctx.floor("add_response sites in process_response", len(adds), 1)
@@ -568,16 +831,25 @@ def d(ctx):
     want_keep = {frozenset({("eq", robs), ("isnot", respobs, "None")})}
     site_alts = {id(c): reach_dnf(X, N, fi, c) for c in adds}
     every = [a_ for c in adds for a_ in site_alts[id(c)]]
-    # what holds wherever the response is handed on ("a request was found"); it must not depend on the Observe options
-    base = frozenset.intersection(*every) if every else frozenset()
     decisive = {"%s.request.opt.observe" % req, respobs}
 
     def mentions(l):
-        return bool(({x for x in l[1:] if isinstance(x, str)} | (l[1].atoms() if isinstance(l[1], Poly) else set())) & decisive)
+        return bool(atoms_of(l) & decisive)
 
-    ctx.ob("every matched response is handed on, whatever the Observe options are", not any(mentions(l) for l in base), fi, adds[0],
-           detail="handed on only when: %s" % _show(base), construct="%s  [always]" % stmt_text(adds[0]))
-    base = frozenset(l for l in base if not mentions(l))
+    def shown(D):  # the part of a condition that talks about the Observe options (for messages)
+        return _dshow({frozenset(l for l in c if mentions(l)) for c in D})
+
+    mixed = [l for c in every for l in c if mentions(l) and atoms_of(l) - decisive - {"None", "True", "False"}]
+    ctx.need(not mixed, "process_response: a test relates an Observe option to something else (%s); the rule cannot separate 'a request was found' from the Observe options" % (_show(frozenset(mixed[:1])) if mixed else ""))
+    # "A request was found": the condition of reaching a hand-over site, with the Observe options projected away.
+    # It is a *disjunction* as soon as the key is chosen among several candidates (found under the first key | not
+    # under the first but under the fall-back key | ...), however that choice is spelled (re-assignment, conditional
+    # expression, nested membership tests, .get() chains); every comparison below is made in the cells where it
+    # holds, because is_last / the removal are only defined for a matched response.
+    found = project_away(every, decisive)
+    ok_all, cex_all = sem_equiv(every, found) if every else (False, None)
+    ctx.ob("every matched response is handed on, whatever the Observe options are", ok_all, fi, adds[0],
+           detail="handed on only when: %s%s" % (shown(every), "; differs for %s" % cex_all if cex_all else ""), construct="%s  [always]" % stmt_text(adds[0]))
     T, F = [], []
     add_n = {cfg.loc1(c) for c in adds}
     for call in adds:
@@ -593,16 +865,22 @@ def d(ctx):
             T += [l for l, t in tv if t]
             F += [l for l, t in tv if not t]
     # over all hand-over sites together (one site with a computed flag, or one site per case with a literal):
-    okT, cexT = sem_equiv(T, want_final, base)
-    okF, cexF = sem_equiv(F, want_keep, base)
+    okT, cexT = sem_equiv(T, want_final, under=found)
+    okF, cexF = sem_equiv(F, want_keep, under=found)
     ctx.ob("is_last is reported exactly when the request had no Observe:0 or the response carries no Observe option", okT and okF, fi, adds[0],
-           detail="is_last true: %s; false: %s%s" % (_dshow({frozenset(c - base) for c in T}), _dshow({frozenset(c - base) for c in F}), "; differs for %s" % (cexT or cexF) if (cexT or cexF) else ""),
+           detail="is_last true: %s; false: %s%s" % (shown(T), shown(F), "; differs for %s" % (cexT or cexF) if (cexT or cexF) else ""),
            construct="%s  [is_last]" % stmt_text(adds[0]))
-    pops = [n for k, n in stores_to(fi.node, TABLE) if k in ("pop", "delitem", "del", "clear", "popitem")]
+    REMOVE = ("pop", "delitem", "del", "clear", "popitem", "__delitem__")
+    stores = stores_to(fi.node, TABLE)
+    pops = [n for k, n in stores if k in REMOVE or (k.startswith("ref:") and k[4:] in REMOVE)]
+    # an entry that is put (back) into the table here makes "removed" a statement about the net effect of several
+    # writes, which this rule does not compute: refuse rather than judge the removals alone
+    inserts = [n for k, n in stores if k in ("assign", "setitem", "setdefault", "update", "__setitem__") or k.startswith("ref:") and k[4:] in ("setdefault", "update", "__setitem__")]
+    ctx.need(not inserts, "process_response: outgoing_requests is also written (%s); the rule only understands removals there" % (stmt_text(inserts[0]) if inserts else ""))
     if not pops:
         # nothing is ever removed here -- unless a method that was not expanded does it, which this rule cannot follow
         hidden = [c for c in calls_in(fi.node) if _callee(ctx.prog, fi, c) is not None and
-                  any(k in ("pop", "delitem", "del", "clear", "popitem") for k, _n in stores_to(_callee(ctx.prog, fi, c).node, TABLE))]
+                  any(k in REMOVE for k, _n in stores_to(_callee(ctx.prog, fi, c).node, TABLE))]
         ctx.need(not hidden, "process_response: outgoing_requests entries are removed inside %s, which could not be expanded" % (stmt_text(hidden[0]) if hidden else ""))
         ctx.ob("the token is forgotten whenever the request had no Observe:0 or the response carries no Observe option", False, fi, adds[0],
                detail="no removal from outgoing_requests in process_response", construct="removal from outgoing_requests  [complete]")
@@ -611,12 +889,64 @@ def d(ctx):
     for pop in pops:
         Dp = reach_dnf(X, N, fi, pop)
         union += Dp
-        ok, cex = sem_implies(Dp, want_final, base)
+        ok, cex = sem_implies(Dp, want_final, under=found)
         ctx.ob("the token is forgotten only when the request had no Observe:0 or the response carries no Observe option", ok and bool(Dp), fi, pop,
-               detail="removal condition: %s" % _dshow({frozenset(c - base) for c in Dp}))
-    ok, cex = sem_equiv(union, want_final, base)
+               detail="removal condition: %s" % shown(Dp))
+    ok, cex = sem_equiv(union, want_final, under=found)
     ctx.ob("the token is forgotten whenever the request had no Observe:0 or the response carries no Observe option", ok, fi, pops[0],
-           detail="removal condition: %s%s" % (_dshow({frozenset(c - base) for c in union}), "; differs for %s" % cex if cex else ""), construct="removal from outgoing_requests  [complete]")
+           detail="removal condition: %s%s" % (shown(union), "; differs for %s" % cex if cex else ""), construct="removal from outgoing_requests  [complete]")
+    _removed_key(ctx, fi, cfg, X, N, req, pops, found)
+
+
+def _table_key(e):
+    """key expression of a read / removal of one outgoing_requests entry: `T[k]`, `T.get(k[, d])`, `T.pop(k[, d])`,
+    `del T[k]`, `T.__delitem__(k)`; None for anything else"""
+    if isinstance(e, ast.Delete):
+        return _table_key(e.targets[0]) if len(e.targets) == 1 else None
+    if isinstance(e, ast.Subscript) and not isinstance(e.slice, ast.Slice):
+        return e.slice
+    if isinstance(e, ast.Call) and isinstance(e.func, ast.Attribute) and e.func.attr in ("get", "pop", "__getitem__", "__delitem__") and e.args and not e.keywords:
+        return e.args[0]
+    return None
+
+
+def _removed_key(ctx, fi, cfg, X, N, req, pops, found):
+    """The entry that is removed is the entry the response was matched to.  Decided only where both keys are in
+    plain sight (the matched request is bound once, directly from a table access; the removal names its key): for
+    every pair of values the two key expressions can take that are not the same expression, the conditions of
+    that pair must be contradictory wherever a request was found.  Other shapes (lookup in a helper that was not
+    expanded, several lookups) are left alone -- this obligation only ever adds a finding."""
+    from .c05 import nf_conds
+    ws = write_values(fi.node, req)
+    if len(ws) != 1 or ws[0][1] is None:
+        return
+    st, v = ws[0]
+    v = v.value if isinstance(v, ast.Await) else v
+    kl = _table_key(v)
+    if kl is None:
+        return
+    ln = cfg.loc1(st)
+
+    def values(e, nid):
+        try:
+            return [(dump(v2), a_) for v2, c2 in X.expand(e, nid) for a_ in nf_conds(N, c2)]
+        except AnalysisError:
+            return None
+
+    lv = values(kl, ln)
+    for pop in pops:
+        kp = _table_key(pop)
+        if kp is None or lv is None:
+            continue
+        pv = values(kp, cfg.loc1(pop))
+        if pv is None:
+            continue
+        ok = True
+        for d1, a1 in lv:
+            for d2, a2 in pv:
+                if d1 != d2 and any(sem_satisfiable(a1 | a2 | f_) for f_ in (found or [frozenset()])):
+                    ok = False
+        ctx.ob("the entry that is forgotten is the one the response was matched to", ok, fi, pop, construct="%s  [key]" % stmt_text(pop))
 
 
 def _iter_source(fnode, e):
@@ -712,7 +1042,7 @@ def e(ctx):
     # error()
     fi = f_err
     cfg = cfg_of(fi)
-    X, N = Expander(fi), Normalizer()
+    X, N = Expander(fi), _normalizer(prog, fi)
     dead_lits = {("is", f, "None") for f in nulled} | {("truth", f) for f in flags}
     alive_lits = {_neg(l) for l in dead_lits}
     deadp = pseudo_asserting(X, N, cfg, lambda a: bool(a & dead_lits))
@@ -957,7 +1287,7 @@ def g_lossy_iterator(ctx):
     awaits = [n for n in walk_no_nested(fi.node) if isinstance(n, ast.Await)]
     aw = [a_ for a_ in awaits if chain(a_.value) == FUT or (isinstance(a_.value, ast.Name) and _snapshot_of_mailbox(fi, cfg, a_.value.id, cfg.loc1(a_)))]
     ctx.ob("__anext__ waits for the mailbox future", len(aw) == 1, fi, aw[0] if aw else fi.node, construct="_Iterator.__anext__ await")
-    N = Normalizer()
+    N = _normalizer(prog, fi)
     if aw:
         an = cfg.loc1(aw[0])
         rearm = [n for n in _fut_stores(fi) if cfg.exists_path(an, cfg.loc1(n))]
@@ -1085,3 +1415,10 @@ R.seed("C07.d", F_TM, "        request.add_response(response, is_last=final)\n",
 R.seed("C07.g", F_PRO, "            if self._future.done():\n                self._future = asyncio.get_running_loop().create_future()\n            self._future.set_exception(e)", "            self._future.set_exception(e)", "second error raises InvalidStateError in the errback")
 R.seed("C07.g", F_PRO, "            self._future.set_result(item)", "            asyncio.get_running_loop().create_future().set_result(item)", "item put into a future nobody awaits")
 R.seed("C07.e", F_PRO, "        for c in self.callbacks:\n            c(response)\n", "        for c in self.callbacks:\n            c(self._latest_response and None)\n", "callbacks do not receive the response")
+
+# seeds for the second hardening pass (comparisons under 'a request was found', removal key, endings decided over consistent walks)
+R.seed("C07.d", F_TM, "            self.outgoing_requests.pop(key)\n", "            self.outgoing_requests.pop((response.token, response.remote))\n", "a request matched under the multicast key is never forgotten (KeyError instead)")
+R.seed("C07.d", F_TM, "        request.add_response(response, is_last=final)\n", "        request.add_response(response, is_last=final and key[1] is not None)\n", "responses matched under the fall-back key are never reported as last")
+R.seed("C07.d", F_TM, "        if final:\n            self.outgoing_requests.pop(key)\n", "        if final and key[1] is not None:\n            self.outgoing_requests.pop(key)\n", "tokens matched under the fall-back key are never forgotten")
+R.seed("C07.c", F_PRO, "            self.observation.error(error.NotObservable())\n", "            self.observation.error(error.ObservationCancelled())\n", "a non-observable resource is reported as a cancelled observation")
+R.seed("C07.c", F_PRO, "                self.observation.error(next_event.exception)\n", "                self.observation.error(error.ObservationCancelled())\n", "transport failure reported as a regular end")
